@@ -12,10 +12,20 @@ use std::convert::TryInto;
 fn parse_xref_section_from_stream(first_id: u32, mut num_entries: usize, width: &[usize], data: &mut &[u8], resolve: &impl Resolve) -> Result<XRefSection> {
     let mut entries = Vec::new();
     let [w0, w1, w2]: [usize; 3] = width.try_into().map_err(|_| other!("invalid xref length array"))?;
-    if num_entries * (w0 + w1 + w2) > data.len() {
+    // the widths and the entry count come from the file: no unchecked arithmetic on them
+    let entry_len = match w0.checked_add(w1).and_then(|w| w.checked_add(w2)) {
+        Some(len) => len,
+        None => bail!("xref stream entry width overflows")
+    };
+    if entry_len == 0 {
+        // every entry would take no data at all: a section could claim any number of them
+        bail!("xref stream entries have zero width");
+    }
+    let max_entries = data.len() / entry_len;
+    if num_entries > max_entries {
         if resolve.options().allow_xref_error {
             warn!("not enough xref data. truncating.");
-            num_entries = data.len() / (w0 + w1 + w2);
+            num_entries = max_entries;
         } else {
             bail!("not enough xref data");
         }
